@@ -122,6 +122,108 @@ theorem C17_relisten_not_forwarded (publicPort b1 b2 : Nat) :
     Ev.ok publicPort ∈ listenAgain publicPort b2 := by
   simp [listenAgain, listen, openPorts]
 
+/-! ## the creating command and the descriptor wait -/
+
+/-- once `listen()` has an outcome nothing that happens later changes it -/
+theorem waitRun_settled (cmdOk : Bool) (w : Wait) (h : List TxV.HsDesc.In) (hs : w.result.isSome = true) : waitRun cmdOk w h = w := by
+  induction h generalizing w with
+  | nil => rfl
+  | cons i rest ih =>
+    have : waitStep cmdOk w i = w := by simp [waitStep, hs]
+    simp only [waitRun, List.foldl_cons, this]
+    exact ih w hs
+
+/-- a step can only produce an outcome once the creating command has been answered, or on a lost connection -/
+theorem waitStep_result (cmdOk : Bool) (w : Wait) (i : TxV.HsDesc.In) (hn : w.result = none) (b : Bool)
+    (h : (waitStep cmdOk w i).result = some b) :
+    (b = true → (waitStep cmdOk w i).answered = true ∧ cmdOk = true ∧ (waitStep cmdOk w i).hs.fired = some .ok ∧ i ≠ .lost) ∧
+    (b = false → i = .lost ∨ ((waitStep cmdOk w i).answered = true ∧ (cmdOk = false ∨ (waitStep cmdOk w i).hs.fired = some .fail))) := by
+  simp only [waitStep, hn, Option.isSome_none, Bool.false_eq_true, if_false] at h ⊢
+  by_cases hl : i = .lost
+  · simp only [hl, if_true, Option.some.injEq] at h
+    subst h
+    exact ⟨fun hb => absurd hb (by decide), fun _ => Or.inl hl⟩
+  · simp only [hl, if_false] at h
+    by_cases ha : (w.answered || decide (i = .reply)) = true
+    · simp only [ha, Bool.true_and, if_true] at h
+      cases hc : cmdOk with
+      | false =>
+        simp only [hc, Bool.not_false, if_true, Option.some.injEq] at h
+        subst h
+        exact ⟨fun hb => absurd hb (by decide), fun _ => Or.inr ⟨ha, Or.inl rfl⟩⟩
+      | true =>
+        simp only [hc, Bool.not_true, Bool.false_eq_true, if_false] at h
+        cases hf : (TxV.HsDesc.step w.hs i).fired with
+        | none => simp [hf] at h
+        | some o =>
+          cases o with
+          | ok =>
+            simp only [hf, Option.some.injEq] at h
+            subst h
+            exact ⟨fun _ => ⟨ha, rfl, rfl, hl⟩, fun hb => absurd hb (by decide)⟩
+          | fail =>
+            simp only [hf, Option.some.injEq] at h
+            subst h
+            exact ⟨fun hb => absurd hb (by decide), fun _ => Or.inr ⟨ha, Or.inr rfl⟩⟩
+    · have ha' : (w.answered || decide (i = .reply)) = false := by simpa using ha
+      simp [ha'] at h
+
+/-- **`listen()` resolves only after the service exists and its descriptor wait is over.**  If the run resolves, then at
+some point of the history the creating command had been answered — and accepted — and the wait of C15 had fired with
+success by then; the connection was not lost before that. -/
+theorem C17_resolves_only_after_wait (cmdOk : Bool) (h : List TxV.HsDesc.In) :
+    ∀ w : Wait, w.result = none → (waitRun cmdOk w h).result = some true →
+      cmdOk = true ∧ ∃ pre i post, h = pre ++ i :: post ∧ (waitRun cmdOk w (pre ++ [i])).answered = true ∧
+        (waitRun cmdOk w (pre ++ [i])).hs.fired = some .ok ∧ (waitRun cmdOk w pre).result = none ∧ i ≠ .lost := by
+  induction h with
+  | nil => intro w hn hr; simp [waitRun] at hr; rw [hn] at hr; cases hr
+  | cons i rest ih =>
+    intro w hn hr
+    cases hres : (waitStep cmdOk w i).result with
+    | some b =>
+      have hset := waitRun_settled cmdOk (waitStep cmdOk w i) rest (by simp [hres])
+      have hr' : (waitRun cmdOk w (i :: rest)) = waitStep cmdOk w i := by simpa [waitRun] using hset
+      rw [hr', hres] at hr
+      have hb : b = true := by cases hr; rfl
+      obtain ⟨h1, _⟩ := waitStep_result cmdOk w i hn b hres
+      obtain ⟨ha, hc, hf, hl⟩ := h1 hb
+      exact ⟨hc, [], i, rest, rfl, by simpa [waitRun] using ha, by simpa [waitRun] using hf, by simpa [waitRun] using hn, hl⟩
+    | none =>
+      have hr2 : (waitRun cmdOk (waitStep cmdOk w i) rest).result = some true := by simpa [waitRun] using hr
+      obtain ⟨hc, pre, j, post, he, ha, hf, hp, hl⟩ := ih (waitStep cmdOk w i) hres hr2
+      refine ⟨hc, i :: pre, j, post, by rw [he]; rfl, ?_, ?_, ?_, hl⟩
+      · simpa [waitRun] using ha
+      · simpa [waitRun] using hf
+      · simpa [waitRun] using hp
+
+/-- **What stays open.** Whatever Tor answers and reports, and in whatever order: after `listenWith` the local listener is
+open exactly when `listen()` has resolved or is still waiting, never after a failure; and every forwarding request names
+the bound port on the loopback interface. -/
+theorem C17_wait_no_leak (publicPort bound : Nat) (known0 cmdOk : Bool) (h : List TxV.HsDesc.In) :
+    let r := (waitRun cmdOk { hs := { awaitAll := false, known := known0 } } h).result
+    (r = some false → openPorts (listenWith publicPort bound known0 cmdOk h) = [] ∧ Ev.fail ∈ listenWith publicPort bound known0 cmdOk h) ∧
+    (r = some true → listenWith publicPort bound known0 cmdOk h = listen publicPort bound .none) ∧
+    (r = some false → listenWith publicPort bound known0 cmdOk h = listen publicPort bound .create) ∧
+    (r = none → openPorts (listenWith publicPort bound known0 cmdOk h) = [bound] ∧
+      ∀ e ∈ listenWith publicPort bound known0 cmdOk h, e ≠ .fail ∧ e ≠ .ok publicPort) := by
+  simp only
+  cases hr : (waitRun cmdOk { hs := { awaitAll := false, known := known0 } } h).result with
+  | none => simp [listenWith, hr, openPorts]
+  | some b => cases b <;> simp [listenWith, hr, openPorts, listen]
+
+/-- a refused command fails the listen whatever the descriptor events say; a lost connection fails it unless it had resolved -/
+theorem C17_refused_or_lost (publicPort bound : Nat) (known0 : Bool) (h : List TxV.HsDesc.In) :
+    (TxV.HsDesc.In.reply ∈ h → Ev.ok publicPort ∉ listenWith publicPort bound known0 false h) := by
+  intro _ hok
+  have hr : (waitRun false { hs := { awaitAll := false, known := known0 } } h).result = some true := by
+    cases hx : (waitRun false { hs := { awaitAll := false, known := known0 } } h).result with
+    | none => simp [listenWith, hx] at hok
+    | some b => cases b with
+      | true => rfl
+      | false => simp [listenWith, hx] at hok
+  have := (C17_resolves_only_after_wait false h _ rfl hr).1
+  cases this
+
 example : ¬ Invalid {} ∧ Invalid { hsDir := true, key := true } ∧
     (validate { hsDir := true }).toOption = some { ephemeral := false, auth := .none } := by
   decide +kernel
